@@ -48,6 +48,27 @@ theorem c_foreach_overlap (fuel : Nat) (e : Entry) (addr off : BitVec 32) (hf : 
   rw [hiff]
   simp only [Bool.and_eq_true, Bool.not_eq_true', decide_eq_false_iff_not, not_or]
 
+/-- the two tests of the model's `reg_entry_is_in_memory` (initialisation: "every register lies wholly inside one area")
+    are the translated `ra_reg_is_part_of` and `ra_reg_fits_into` -/
+theorem c_entry_in_area (fuel : Nat) (a : Area) (e : Entry)
+    (hfit : a.base + a.size < 2 ^ 32) (hef : e.address + e.type.size < 2 ^ 32) :
+    Ufw.Gen.RegFns.ra_reg_is_part_of fuel (BitVec.ofNat 32 a.base) (BitVec.ofNat 32 a.size) (BitVec.ofNat 32 e.address)
+        = Res.val (if Ufw.Model.RegTable.ra_addr_is_part_of a e.address then 1#8 else 0#8) ∧
+    Ufw.Gen.RegFns.ra_reg_fits_into fuel (BitVec.ofNat 32 a.base) (BitVec.ofNat 32 a.size) (typeCode e.type) (BitVec.ofNat 32 e.address)
+        = Res.val (if e.address + e.type.size ≤ a.base + a.size then 1#8 else 0#8) := by
+  have hb : (BitVec.ofNat 32 a.base).toNat = a.base := by rw [BitVec.toNat_ofNat]; exact Nat.mod_eq_of_lt (by omega)
+  have hs : (BitVec.ofNat 32 a.size).toNat = a.size := by rw [BitVec.toNat_ofNat]; exact Nat.mod_eq_of_lt (by omega)
+  have ha := ofNat_address e hef
+  constructor
+  · have := gen_ra_reg_is_part_of fuel (BitVec.ofNat 32 a.base) (BitVec.ofNat 32 a.size) (BitVec.ofNat 32 e.address) a
+      hb.symm hs.symm (by rw [hb, hs]; exact hfit)
+    rw [ha] at this
+    exact this
+  · have := gen_ra_reg_fits_into fuel (BitVec.ofNat 32 a.base) (BitVec.ofNat 32 a.size) (BitVec.ofNat 32 e.address) e.type
+      (by rw [hb, hs]; exact hfit) (by rw [ha]; exact hef)
+    rw [ha, hb, hs] at this
+    exact this
+
 example : (reg_taint_in_range { areas := [], entries := [{ type := .u32, default := 0, address := 16 }, { type := .u16, default := 0, address := 18 }] } 17 1).entries.map (·.touched)
     = [true, false] := by decide
 
